@@ -199,5 +199,5 @@ Qed.
 Lemma try_push_pushed_cap {A} (x : A) c c' : try_push x c = Pushed c' -> cap c' = cap c /\ rcv c' = rcv c.
 Proof.
   unfold try_push. destruct (closed c); [discriminate|]. destruct (rcv c) eqn:Er; [discriminate|]. destruct (cap c <=? qlen c); [discriminate|].
-  intros H. inversion H; subst. cbn. now rewrite Er.
+  intros H. inversion H; subst. cbn. split; reflexivity.
 Qed.
